@@ -73,6 +73,15 @@ func ruleBusLocks(c *core.Ctx, lc *core.LockCache) {
 		fns = append(fns, fn)
 	}
 	lockPairing(c, lc, rule, fns)
+	skip := map[core.LockClass]string{}
+	if a := getEP(c, rule); a != nil {
+		// the end point's handler mutex (whatever it is called): decided with more precision
+		// by the callbacks rule (closers run under it only for a handler whose own filter
+		// answered keep=false)
+		skip[a.class] = "C12.callbacks / C17.callbacks"
+	}
+	nHeldCalls := reentrantThroughCalls(c, lc, rule, fns, skip)
+	c.Note("calls made with a mutex held: %d (each followed through the call graph for a re-acquisition)", nHeldCalls)
 	for _, fn := range fns {
 		lf := lc.Get(fn)
 		if lf.Ops == 0 {
